@@ -43,9 +43,36 @@ def oracle(ctx, stores):
     return bad
 
 
+def illformed_oracle(ctx):
+    """completeness: an ill-formed program IS reported, with the right kind, about the right name, at an occurrence of it"""
+    import gen
+    cases = [gen.illformed(ctx.rng) for _ in range(600 if ctx.thorough() else 150)]
+    out = lib.run_impl(ctx, [lib.store_cmd("cfg live -", pipe.single(t), "a.s") for t, _, _, _ in cases], tag="illformed")
+    bad = []
+    for (t, kind, name, lines), line in zip(cases, out):
+        m = CE.match(line)
+        why = None
+        if not m:
+            why = "an ill-formed program (%s %r) is analysed without an error: %r" % (kind, name, line[:80])
+        else:
+            k2, payload, sl = m.group(1), m.group(2), int(m.group(3))
+            names = [lib.dec(x) for x in payload.strip("[]").split(",") if x]
+            if k2 != kind or name not in names:
+                why = "expected %s about %r, got %s about %s" % (kind, name, k2, names)
+            elif sl not in lines:
+                why = "%s about %r is located on line %d, the fault is on line %s" % (kind, name, sl + 1, [l + 1 for l in lines])
+        if why:
+            bad.append(dict(files=pipe.single(t), base="a.s", kind="illformed:" + kind, why=why, output=line[:300]))
+    return bad, len(cases)
+
+
 def run(ctx):
+    def both(ctx2, stores):
+        bad, n = illformed_oracle(ctx2)
+        ctx2.coverage["illformed_programs"] = n
+        return oracle(ctx2, stores) + bad
     generic.run(ctx, "C16", ["new1", "dir1", "new", "dir", "markup"], dict(flow=160, random=80, conforming=10, injected=10, handlers=30),
-                oracle=oracle, with_diag=True, what="CFG error paths")
+                oracle=both, with_diag=True, what="CFG error paths")
 
 
 replay = generic.replay
